@@ -264,46 +264,53 @@ func subMultiset(a, b []string) bool {
 	return true
 }
 
+// loopObs runs one Loop over the argument a with the caller's key buffer buf and prints the observation of the
+// ops below.  args = <canon>;<wants>;<ctls>;<path>.  The buffer belongs to the caller: a sequence of reads may hand
+// the same one to every call (op_seq.go).
+func loopObs(ins inspector.Inspector, a any, buf *[]byte, raw bool, args []string) string {
+	canon, wants, ctls, path := args[0], args[1], args[2], Path(args[3])
+	sorted := strings.HasPrefix(canon, "s")
+	kind := ""
+	if sorted && len(canon) > 2 {
+		kind = canon[2:]
+	}
+	it := &recIter{wants: wants, ctls: ctls}
+	err := ins.Loop(a, it, buf, path...)
+	head := "e=" + ErrName(err) + ";"
+	if raw {
+		rs := roundsOf(it.events, kind, true, true)
+		if sorted {
+			sort.Strings(rs)
+			return head + "s;" + strings.Join(rs, "|")
+		}
+		return head + "o;" + strings.Join(rs, "|")
+	}
+	if !sorted {
+		return head + "o;" + strings.Join(roundsOf(it.events, kind, false, true), "|")
+	}
+	rs := roundsOf(it.events, kind, false, false)
+	broke := len(it.events) > 0 && it.events[len(it.events)-1].kind == 'I' && it.events[len(it.events)-1].ctl == inspector.LoopCtlBrk
+	if broke {
+		// the full iteration, for membership
+		full := &recIter{wants: wants, ctls: ""}
+		buf2 := make([]byte, 0, 8)
+		_ = ins.Loop(a, full, &buf2, path...)
+		sub := "0"
+		if subMultiset(rs, roundsOf(full.events, kind, false, false)) {
+			sub = "1"
+		}
+		return head + "b;n=" + strconv.Itoa(len(rs)) + ";sub=" + sub + ";c=" + ctlLetters(it.events)
+	}
+	sort.Strings(rs)
+	return head + "s;" + strings.Join(rs, "|") + ";c=" + ctlLetters(it.events)
+}
+
 func init() {
 	mk := func(raw bool) opfn {
 		return func(ins inspector.Inspector, t reflect.Type, form string, args []string, value string) string {
-			canon, wants, ctls, path := args[0], args[1], args[2], Path(args[3])
-			sorted := strings.HasPrefix(canon, "s")
-			kind := ""
-			if sorted && len(canon) > 2 {
-				kind = canon[2:]
-			}
 			a, _ := Arg(t, form, value)
 			buf := make([]byte, 0, 8)
-			it := &recIter{wants: wants, ctls: ctls}
-			err := ins.Loop(a, it, &buf, path...)
-			head := "e=" + ErrName(err) + ";"
-			if raw {
-				rs := roundsOf(it.events, kind, true, true)
-				if sorted {
-					sort.Strings(rs)
-					return head + "s;" + strings.Join(rs, "|")
-				}
-				return head + "o;" + strings.Join(rs, "|")
-			}
-			if !sorted {
-				return head + "o;" + strings.Join(roundsOf(it.events, kind, false, true), "|")
-			}
-			rs := roundsOf(it.events, kind, false, false)
-			broke := len(it.events) > 0 && it.events[len(it.events)-1].kind == 'I' && it.events[len(it.events)-1].ctl == inspector.LoopCtlBrk
-			if broke {
-				// the full iteration, for membership
-				full := &recIter{wants: wants, ctls: ""}
-				buf2 := make([]byte, 0, 8)
-				_ = ins.Loop(a, full, &buf2, path...)
-				sub := "0"
-				if subMultiset(rs, roundsOf(full.events, kind, false, false)) {
-					sub = "1"
-				}
-				return head + "b;n=" + strconv.Itoa(len(rs)) + ";sub=" + sub + ";c=" + ctlLetters(it.events)
-			}
-			sort.Strings(rs)
-			return head + "s;" + strings.Join(rs, "|") + ";c=" + ctlLetters(it.events)
+			return loopObs(ins, a, &buf, raw, args)
 		}
 	}
 	ops["loop"] = mk(false)
